@@ -15,6 +15,10 @@
               target name in CAPTURE / RAW-CAPTURE / PRAGMA LOAD-MEMORY, other memory references)
      param    DEFCAL RX(%t) ..: bodies that pass the parameter on, re-invoke RX / RY with the same or
               a grown parameter (%t+1), literal calibrations RX(1) / RX(2) before or after
+     params2  DEFCAL F(<two parameters>) q: literal and variable parameters in every order, bodies using
+              each variable and passing both on (also swapped) to two-parameter calibrations Z
+     mrec     recursion through measurement calibrations: direct, mutual (fixed / variable qubit, named /
+              unnamed), gate -> measure -> gate, and same-kind chains that end; for record and for effect
 
    Exclusions (written here because they restrict the quantifier):
      * programs whose expansion nests deeper than MaxDepth are not generated unless
@@ -24,7 +28,7 @@
        replaced (CAPTURE / RAW-CAPTURE memory reference, PRAGMA LOAD-MEMORY data)
      * no placeholder qubits; a calibration does not bind one variable name twice              *)
 EXTENDS SourceMap, Json
-CONSTANTS Families,              \* subset of {"struct", "gkinds", "mkinds", "param"}
+CONSTANTS Families,              \* subset of {"struct", "gkinds", "mkinds", "param", "params2", "mrec"}
           StructGates,           \* gates callable from struct bodies, subset of {"X", "Y", "W", "Z"}
           StructDeclare,         \* TRUE: struct bodies may contain DECLARE a
           StructW2,              \* TRUE: DEFCAL W 0 may have two body elements (else one)
@@ -64,7 +68,7 @@ StructAssemble(p) ==
 \* ------------------------------------------------------------------ gkinds
 \* every instruction kind, over two qubits and one expression
 Kinds(a, b, e) ==
-  { Gate("Z", <<>>, <<e>>, <<a, b>>), Gate("U", <<"DAGGER">>, <<e, EInt(1)>>, <<b>>),
+  { Gate("Z", <<>>, <<e>>, <<a, b>>), Gate("U", <<"DAGGER", "CONTROLLED">>, <<e, EInt(1)>>, <<b, a>>),
     Measure("", a, Some(MRef("ro", 1))), Measure("", b, None), ResetQ(<<a>>), ResetQ(<<>>),
     Delay(<<a, b>>, e), Fence(<<b, a>>), Pulse(<<a>>, "rf", e), Capture(<<b>>, "ro", e, MRef("ro", 1)),
     RawCapture(<<a>>, "ro", e, MRef("ro", 0)),
@@ -130,11 +134,72 @@ ParamAssemble(p) ==
          \o (IF p[6] = NoI THEN <<>> ELSE <<DefCal("RY", <<S>>, <<Qq>>, <<p[6]>>)>>),
    mm |-> <<>>, b |-> p[7]]
 
+\* ------------------------------------------------------------------ params2
+\* calibrations with two parameters, literals and variables in every order; bodies use each variable,
+\* also passed on in swapped order to a second two-parameter calibration; distinct argument values
+U2 == EVar("u")
+One == EInt(1)
+P2Elems == { FrameOp("ShiftPhase", <<Qq>>, "rf", T), Delay(<<Qq>>, U2), Pulse(<<Qq>>, "rf", EPlus1(T)),
+             Gate("Z", <<>>, <<T, U2>>, <<Qq>>), Gate("Z", <<>>, <<U2, T>>, <<Qq>>), Gate("Z", <<>>, <<One, T>>, <<Qq>>) }
+P2Z(n) == CASE n = 1 -> <<DefCal("Z", <<T, U2>>, <<Qq>>, <<FrameOp("ShiftPhase", <<Qq>>, "rf", T), Delay(<<Qq>>, U2)>>)>>
+            [] n = 2 -> <<DefCal("Z", <<U2, T>>, <<Qq>>, <<FrameOp("ShiftPhase", <<Qq>>, "rf", T), Delay(<<Qq>>, U2)>>)>>
+            [] n = 3 -> <<DefCal("Z", <<One, T>>, <<Qq>>, <<FrameOp("ShiftPhase", <<Qq>>, "rf", T)>>),
+                          DefCal("Z", <<T, One>>, <<Qq>>, <<Delay(<<Qq>>, T)>>)>>
+            [] OTHER -> <<>>
+Params2Dim(n) == CASE n = 1 -> { <<One, T>>, <<T, One>>, <<T, U2>>, <<U2, T>>, <<One, U2>> }   \* parameters of DEFCAL F
+                   [] n = 2 -> P2Elems
+                   [] n = 3 -> P2Elems \cup {NoI}
+                   [] n = 4 -> {0, 1, 2, 3}                                              \* which DEFCAL Z(..) q
+                   [] n = 5 -> { <<Gate("F", <<>>, <<One, EPi2>>, <<Q(0)>>)>>, <<Gate("F", <<>>, <<EPi2, One>>, <<Q(0)>>)>>,
+                                 <<Gate("F", <<>>, <<EReal("0.25"), EPi2>>, <<Q(2)>>), Gate("F", <<>>, <<EPlus1(EInt(0)), EReal("0.25")>>, <<Q(0)>>)>> }
+Params2Assemble(p) ==
+  [g |-> <<DefCal("F", p[1], <<Qq>>, Opt2(p[2], p[3]))>> \o P2Z(p[4]), mm |-> <<>>, b |-> p[5]]
+
+\* ------------------------------------------------------------------ mrec
+\* recursion through measurement calibrations: direct, mutual (fixed / variable qubit, named / unnamed),
+\* through a gate calibration, and same-kind chains that end.  rec = TRUE: measurements for record (the
+\* calibration's target name is addr; the measurements written in bodies go to other[0], a memory
+\* reference that "stays as written"), rec = FALSE: measurements for effect.
+MM(rec, name, q) == Measure(name, q, IF rec THEN Some(MRef("other", 0)) ELSE None)
+MSrc(rec, name, q) == Measure(name, q, IF rec THEN Some(MRef("ro", 1)) ELSE None)
+Tg(rec) == IF rec THEN "addr" ELSE ""
+MRecDim(n) == CASE n = 1 -> BOOLEAN                                              \* rec
+                [] n = 2 -> {Q(0), Qq}                                           \* qubit of DEFCAL MEASURE (unnamed)
+                [] n = 3 -> {"self", "named", "other-qubit", "gate", "nop"}      \* what its body does
+                [] n = 4 -> {"none", "fixed-unnamed", "var-unnamed", "var-named", "var-gate", "fixed-nop"}  \* DEFCAL MEASURE!m
+                [] n = 5 -> {"none", "unnamed", "named", "nop", "var"}           \* DEFCAL X
+                [] n = 6 -> {1, 2, 3}                                            \* program body
+MRecAssemble(p) ==
+  LET rec == p[1]  qa == p[2]
+      bodyA == CASE p[3] = "self"        -> <<MM(rec, "", qa)>>
+                 [] p[3] = "named"       -> <<Nop, MM(rec, "m", qa)>>
+                 [] p[3] = "other-qubit" -> <<MM(rec, "", Q(1)), Nop>>
+                 [] p[3] = "gate"        -> <<G0("X")>>
+                 [] p[3] = "nop"         -> <<Nop>>
+      B == CASE p[4] = "none"          -> <<>>
+             [] p[4] = "fixed-unnamed" -> <<DefMeas("m", Q(0), Tg(rec), <<MM(rec, "", Q(0))>>)>>
+             [] p[4] = "var-unnamed"   -> <<DefMeas("m", Qq, Tg(rec), <<MM(rec, "", Qq)>>)>>
+             [] p[4] = "var-named"     -> <<DefMeas("m", Qq, Tg(rec), <<MM(rec, "m", Qq)>>)>>
+             [] p[4] = "var-gate"      -> <<DefMeas("m", Qq, Tg(rec), <<G0("X")>>)>>
+             [] p[4] = "fixed-nop"     -> <<DefMeas("m", Q(0), Tg(rec), <<Nop>>)>>
+      X == CASE p[5] = "none"    -> <<>>
+             [] p[5] = "unnamed" -> <<DefCal("X", <<>>, <<Q(0)>>, <<MM(rec, "", Q(0))>>)>>
+             [] p[5] = "named"   -> <<DefCal("X", <<>>, <<Q(0)>>, <<MM(rec, "m", Q(0)), Nop>>)>>
+             [] p[5] = "nop"     -> <<DefCal("X", <<>>, <<Q(0)>>, <<Nop>>)>>
+             [] p[5] = "var"     -> <<DefCal("X", <<>>, <<Qq>>, <<MM(rec, "", Qq)>>)>>
+      b == CASE p[6] = 1 -> <<MSrc(rec, "", Q(0))>>
+             [] p[6] = 2 -> <<G0("X")>>
+             [] p[6] = 3 -> <<MSrc(rec, "", Q(1)), MSrc(rec, "m", Q(0))>>
+  IN [g |-> X, mm |-> <<DefMeas("", qa, Tg(rec), bodyA)>> \o B, b |-> b]
+
 NDims(f) == CASE f = "struct" -> 7 [] f = "gkinds" -> 6 [] f = "mkinds" -> 6 [] f = "param" -> 7
+               [] f = "params2" -> 5 [] f = "mrec" -> 6
 Dim(f, n) == CASE f = "struct" -> StructDim(n) [] f = "gkinds" -> GKindDim(n)
                [] f = "mkinds" -> MKindDim(n) [] f = "param" -> ParamDim(n)
+               [] f = "params2" -> Params2Dim(n) [] f = "mrec" -> MRecDim(n)
 Assemble(f, p) == CASE f = "struct" -> StructAssemble(p) [] f = "gkinds" -> GKindAssemble(p)
                     [] f = "mkinds" -> MKindAssemble(p) [] f = "param" -> ParamAssemble(p)
+                    [] f = "params2" -> Params2Assemble(p) [] f = "mrec" -> MRecAssemble(p)
 
 \* ------------------------------------------------------------------ generator
 VARIABLES fam, picks, phase       \* phase: "gen" | "run"
